@@ -176,7 +176,7 @@ ATTRS = {
     "unquoted": [" width=100", " a=b c=d"],
     "valueless": [" hidden", " a b"],
     "mixedcase": [' CLASS="A" onClick="f()"', ' Id="1"'],
-    "spaced": ['  class = "a"\n   id\t=\t"b" ', '\n  x="1"\n'],
+    "spaced": ['  class = "a"\n   id\t=\t"b" ', '\n  x="1"\n', ' a="1"\r\n     b="2"', '\r\n  x="1"', ' a="1"\rb="2" c="3"\r'],
     "multi": [' a="1" b=\'2\' c=3 d', ' z="1" a="2" m="3"'],
     "entval": [' title="a &amp; b &lt; c &quot;q&quot;"', " alt='&#65;&nbsp;'"],
     "gtval": [' title="a > b"', " on='a>b'"],
